@@ -24,9 +24,51 @@ class FuncPtr:
         s.name = name
 
 
-class PtrInt:  # result of ptrtoint (kept symbolic as pointer + integer displacement)
-    def __init__(s, p, add=0):
-        s.p, s.add = p, add
+class PtrInt:
+    """integer obtained from pointers: linear combination  sum coeff[r] * base(r) + add  over abstract region base addresses
+    (LLVM reassociates pointer differences such as (e1 + e2) - (b1 + b2), so single-pointer tracking is not enough)"""
+
+    def __init__(s, p=None, add=0, terms=None):
+        if terms is not None:
+            s.terms = dict(terms); s.add = add
+        else:
+            s.terms = {p.reg: 1}; s.add = _badd(p.off, add)
+
+    @property
+    def p(s):
+        if len(s.terms) == 1 and list(s.terms.values())[0] == 1:
+            return Ptr(list(s.terms.keys())[0], s.add)
+        raise Unmodelled('integer derived from several pointers used as a pointer')
+
+
+def _badd(a, b, sub=False):
+    if isinstance(a, bool):
+        a = 1 if a else 0
+    if isinstance(b, bool):
+        b = 1 if b else 0
+    if is_sym_(a) or is_sym_(b):
+        A = a if is_sym_(a) else z3.BitVecVal(a, 64); B = b if is_sym_(b) else z3.BitVecVal(b, 64)
+        return z3.simplify(A - B if sub else A + B)
+    return ((a - b) if sub else (a + b)) & ((1 << 64) - 1)
+
+
+def is_sym_(v):
+    return isinstance(v, z3.ExprRef)
+
+
+def lin_combine(a, b, sub=False):
+    """a +/- b where at least one is a PtrInt; returns PtrInt or plain integer when all base addresses cancel"""
+    ta = dict(a.terms) if isinstance(a, PtrInt) else {}; aa = a.add if isinstance(a, PtrInt) else a
+    tb = b.terms if isinstance(b, PtrInt) else {}; ab = b.add if isinstance(b, PtrInt) else b
+    for r, c in tb.items():
+        ta[r] = ta.get(r, 0) + (-c if sub else c)
+    ta = {r: c for r, c in ta.items() if c != 0}
+    add = _badd(aa, ab, sub)
+    if not ta:
+        if is_sym_(add):
+            return add
+        return add
+    return PtrInt(add=add, terms=ta)
 
 
 NULL = Ptr(None, 0)
@@ -170,7 +212,7 @@ class Executor:
             if work is None:
                 raise Unmodelled('cannot fork here on a non-unique size value')
             for c in vals[1:]:
-                o = st.clone(); o.pc.append(v == c); o.frames[-1]['idx'] -= 1  # re-execute the instruction in the fork
+                o = st.clone(); o.pc.append(v == c); o.frames[-1]['idx'] = self._iidx  # re-execute the instruction in the fork
                 work.append(o); self.stats['forks'] += 1
             st.pc.append(v == vals[0])
         return vals[0]
@@ -462,14 +504,9 @@ class Executor:
     # ------------------------------------------------------------------ arithmetic
     def binop(self, op, a, b, w):
         if isinstance(a, PtrInt) or isinstance(b, PtrInt):
-            if op == 'sub' and isinstance(a, PtrInt) and isinstance(b, PtrInt):
-                if a.p.reg != b.p.reg:
-                    raise Unmodelled('pointer difference across regions')
-                return self.binop('add', self.binop('sub', a.p.off, b.p.off, w), mask(a.add - b.add, w) if not (is_sym(a.add) or is_sym(b.add)) else a.add - b.add, w)
-            if op in ('add', 'sub') and isinstance(a, PtrInt) and not isinstance(b, PtrInt):
-                return PtrInt(a.p, self.binop(op, a.add, b, w))
-            if op == 'add' and isinstance(b, PtrInt):
-                return PtrInt(b.p, self.binop('add', b.add, a, w))
+            if op in ('add', 'sub') and w == 64:
+                r = lin_combine(a, b, op == 'sub')
+                return simp(r) if is_sym(r) else r
             raise Unmodelled('arithmetic %s on ptrtoint value' % op)
         if isinstance(a, bool):
             a = 1 if a else 0
@@ -494,10 +531,12 @@ class Executor:
         return simp(r)
 
     def icmp(self, pred, a, b, w):
+        if isinstance(a, PtrInt) and isinstance(b, PtrInt) and a.terms == b.terms:
+            return self.icmp(pred, a.add, b.add, 64)
         if isinstance(a, PtrInt):
-            a = Ptr(a.p.reg, self.binop('add', a.p.off, a.add, 64))
+            a = a.p
         if isinstance(b, PtrInt):
-            b = Ptr(b.p.reg, self.binop('add', b.p.off, b.add, 64))
+            b = b.p
         if isinstance(a, (Ptr, FuncPtr)) or isinstance(b, (Ptr, FuncPtr)):
             if isinstance(a, FuncPtr) or isinstance(b, FuncPtr):
                 same = isinstance(a, FuncPtr) and isinstance(b, FuncPtr) and a.name == b.name
@@ -527,7 +566,7 @@ class Executor:
 
     def gep(self, st, base_ty, p, idxs, env):
         if isinstance(p, PtrInt):
-            p = Ptr(p.p.reg, self.binop('add', p.p.off, p.add, 64))
+            p = p.p
         if not isinstance(p, Ptr):
             raise Unmodelled('gep on non-pointer %r' % (p,))
         off = p.off; cur = base_ty; first = True
@@ -685,7 +724,14 @@ class Executor:
             if self.stats['paths'] >= self.max_paths:
                 raise PathLimit('more than %d paths' % self.max_paths)
             try:
-                rv = self._run_path(st, work)
+                try:
+                    rv = self._run_path(st, work)
+                except Unmodelled as e:
+                    fr = st.frames[-1] if st.frames else None
+                    if fr is not None and not getattr(e, 'located', False):
+                        e.located = True
+                        e.args = (str(e) + ' [in %s block %s: %s]' % (fr['func'], fr['block'], self.m.funcs[fr['func']].blocks[fr['block']][max(fr['idx'] - 1, 0)][:120]),)
+                    raise
                 self.stats['paths'] += 1
                 results.append((st, rv))
             except Abort:
@@ -705,7 +751,7 @@ class Executor:
             fr = st.frames[-1]; f = m.funcs[fr['func']]; ins = self.decode(f, fr['block'])
             if fr['idx'] >= len(ins):
                 raise Unmodelled('fell off block %s in %s' % (fr['block'], fr['func']))
-            I = ins[fr['idx']]; fr['idx'] += 1; env = fr['env']; st.steps += 1; self.stats['instructions'] += 1
+            I = ins[fr['idx']]; self._iidx = fr['idx']; fr['idx'] += 1; env = fr['env']; st.steps += 1; self.stats['instructions'] += 1
             if st.steps > self.max_steps:
                 raise PathLimit('step cap %d reached' % self.max_steps)
             if self.deadline and (st.steps & 1023) == 0 and time.time() > self.deadline:
@@ -739,7 +785,7 @@ class Executor:
                 elif pt[0] in ('ptr', 'func') and isinstance(v, int):
                     v = NULL if v == 0 else Ptr(None, v)
                 elif pt[0] in ('ptr', 'func') and isinstance(v, PtrInt):
-                    v = Ptr(v.p.reg, self.binop('add', v.p.off, v.add, 64))
+                    v = v.p
                 elif pt[0] in ('float', 'double') and isinstance(v, int):
                     v = struct.unpack('<d' if pt[0] == 'double' else '<f', struct.pack('<Q' if pt[0] == 'double' else '<I', v))[0]
                 env[dest] = v; continue
@@ -768,7 +814,7 @@ class Executor:
                 elif op == 'ptrtoint':
                     env[dest] = PtrInt(v) if isinstance(v, Ptr) and v.reg is not None else (v.off if isinstance(v, Ptr) else v)
                 elif op == 'inttoptr':
-                    env[dest] = Ptr(v.p.reg, self.binop('add', v.p.off, v.add, 64)) if isinstance(v, PtrInt) else (NULL if (not is_sym(v) and v == 0) else Ptr(None, v))
+                    env[dest] = v.p if isinstance(v, PtrInt) else (NULL if (not is_sym(v) and v == 0) else Ptr(None, v))
                 else:
                     w1, w2 = m.parse_type(ty1)[1], m.parse_type(ty2)[1]
                     if isinstance(v, PtrInt):
